@@ -40,7 +40,8 @@ def rhs_matrix(ode, max_tries: int | None = None) -> sympy.Matrix:
     RuntimeError
         If the maximum number of tries is reached
     """
-    intermediates = {x.symbol: x.expr for x in ode.intermediates}
+    # State derivatives can also be referred to in other expressions
+    intermediates = {x.symbol: x.expr for x in ode.intermediates + ode.state_derivatives}
     rhs = sympy.Matrix([state.expr for state in ode.sorted_state_derivatives()])
 
     if max_tries is None:
